@@ -32,7 +32,7 @@ def specOf (flags : Nat) (v : JVal) (t : Bytes) : String :=
     | some d => d.text == plain && d.ok && valEq d.denote v
     | none => false
   let b (x : Bool) : String := if x then "1" else "0"
-  s!"scope={b inScope} rfc={b rfc} den={b den} doc={b doc} nul={b (t.contains 0)} utf8={b (validUtf8 plain)}"
+  s!"scope={b inScope} rfc={b rfc} den={b den} doc={b doc} nul={b (t.contains 0)} utf8={b (Rfc8259.utf8Valid plain)} u8tree={b (utf8Tree v)}"
 
 /-! coverage: which branches of the serializer the tree exercises -/
 
@@ -41,7 +41,7 @@ def strCov (pre : String) (s : Bytes) : List String :=
   (if s.any (fun b => b == 8 || b == 9 || b == 10 || b == 12 || b == 13 || b == 34 || b == 92) then [pre ++ "-esc2"] else []) ++
   (if s.contains 0 then [pre ++ "-nul"] else []) ++
   (if s.contains 47 then [pre ++ "-slash"] else []) ++
-  (if s.any (· ≥ 128) then [pre ++ (if validUtf8 s then "-utf8" else "-badutf8")] else []) ++
+  (if s.any (· ≥ 128) then [pre ++ (if Rfc8259.utf8Valid s then "-utf8" else "-badutf8")] else []) ++
   (if s.isEmpty then [pre ++ "-empty"] else [])
 
 def dblCov (bits : UInt64) : List String :=
